@@ -90,11 +90,13 @@ def uvarintAux : Bytes → Nat → Nat → Nat × Int
 
 def uvarint (buf : Bytes) : Nat × Int := uvarintAux buf 0 0
 
-/-- `binary.PutUvarint`: the bytes written -/
-def putUvarint (x : Nat) : Bytes :=
-  if x ≥ 128 then UInt8.ofNat (x % 128 + 128) :: putUvarint (x / 128) else [UInt8.ofNat x]
-termination_by x
-decreasing_by omega
+/-- the loop of `binary.PutUvarint` (`for x >= 0x80 { … }`), at most `fuel` more continuation bytes -/
+def putUvarintAux : Nat → Nat → Bytes
+  | 0, x => [UInt8.ofNat x]
+  | fuel + 1, x => if x ≥ 128 then UInt8.ofNat (x % 128 + 128) :: putUvarintAux fuel (x / 128) else [UInt8.ofNat x]
+
+/-- `binary.PutUvarint`: the bytes written (a `uint64` needs at most nine continuation bytes) -/
+def putUvarint (x : Nat) : Bytes := putUvarintAux 9 x
 
 /-- `int32(v)` of a `uint64` -/
 def toInt32 (v : Nat) : Int :=
